@@ -138,6 +138,91 @@ func c17NearBoundary(name string) bool {
 	return false
 }
 
+// c17Deleted: a bucket that was created and deleted again is not a created bucket any more: it is
+// not listed, requests addressed to it do not bring it back, and its (valid, free) name can be
+// created again. spec = "<mode>:<use>" with mode plain | force and use none | head | object | object-left.
+func c17Deleted(e *c17Env, spec string) (ds []disc) {
+	k := e.st.Kind
+	f := strings.SplitN(spec, ":", 2)
+	mode, use := f[0], f[1]
+	name := "gone-" + mode + "-" + use
+	fail := func(kind, format string, a ...interface{}) {
+		ds = append(ds, dsc(kind, "backend=%s deleted-bucket scenario %s: "+format, append([]interface{}{k, spec}, a...)...)...)
+	}
+	cd, _, acc := e.create(name)
+	ds = append(ds, cd...)
+	if !acc {
+		return
+	}
+	switch use {
+	case "head":
+		s3x.Do(e.st.Handler, &s3x.Req{Method: "HEAD", Path: "/" + name})
+	case "object", "object-left":
+		put(e.st, name, "d/obj", []byte("x"))
+		get(e.st, name, "d/obj")
+		if use == "object" {
+			del(e.st, name, "d/obj")
+		}
+	}
+	rq := &s3x.Req{Method: "DELETE", Path: "/" + name}
+	if mode == "force" {
+		rq.Header = s3x.H("x-minio-force-delete", "true")
+	}
+	r := s3x.Do(e.st.Handler, rq)
+	if r.Panic != "" {
+		fail("panic", "delete bucket: %s at %s", r.Panic, r.PanicSite)
+		return
+	}
+	if use == "object-left" && mode == "plain" {
+		// not empty: the bucket stays
+		if r.Status/100 == 2 {
+			fail("nonempty-bucket-deleted", "DELETE of the bucket holding d/obj answered %s", r)
+		}
+		return append(ds, e.checkList()...)
+	}
+	if r.Status/100 != 2 {
+		if mode != "force" {
+			fail("delete-refused", "DELETE of the empty bucket answered %s", r)
+			return
+		}
+		// a forced delete is an extension not every backend has, and its answer is not what the
+		// statement is about: whether the bucket is gone is read off the bucket listing
+		names, _ := e.listed()
+		if contains(names, name) {
+			return append(ds, e.checkList()...)
+		}
+	}
+	delete(e.created, name)
+	ds = append(ds, e.checkList()...)
+	for _, probe := range [][2]string{{"HEAD", "/" + name}, {"GET", "/" + name}, {"PUT", "/" + name + "/obj"}, {"PUT", "/" + name + "/d/obj"}, {"POST", "/" + name + "/mp?uploads"}, {"GET", "/" + name + "/d/obj"}, {"DELETE", "/" + name + "/d/obj"}} {
+		pr := s3x.Do(e.st.Handler, &s3x.Req{Method: probe[0], RawTarget: probe[1], Body: []byte("x")})
+		if pr.Panic != "" {
+			fail("panic", "%s %s: %s at %s", probe[0], probe[1], pr.Panic, pr.PanicSite)
+		}
+		if (probe[0] == "HEAD" || probe[0] == "GET") && pr.Status == 200 {
+			fail("deleted-bucket-answers", "%s %s answers 200 after the bucket was deleted", probe[0], probe[1])
+		}
+		for _, d := range e.checkList() {
+			d.Detail = fmt.Sprintf("after %s %s (scenario %s): ", probe[0], probe[1], spec) + d.Detail
+			ds = append(ds, d)
+		}
+	}
+	// the name is valid and free again
+	cd, _, acc = e.create(name)
+	ds = append(ds, cd...)
+	if !acc && len(cd) == 0 {
+		fail("free-name-refused", "creating the deleted bucket's name again was refused")
+	}
+	if acc {
+		if g := get(e.st, name, "d/obj"); g.Status == 200 {
+			fail("deleted-bucket-contents-back", "the re-created bucket serves d/obj of the deleted one")
+		}
+	}
+	return append(ds, e.checkList()...)
+}
+
+var c17DeletedSpecs = []string{"plain:none", "plain:head", "plain:object", "plain:object-left", "force:none", "force:head", "force:object", "force:object-left"}
+
 func c17Replay(check string, raw json.RawMessage) ([]disc, error) {
 	var cs c17Case
 	if err := json.Unmarshal(raw, &cs); err != nil {
@@ -145,6 +230,9 @@ func c17Replay(check string, raw json.RawMessage) ([]disc, error) {
 	}
 	e := newC17Env(cs.Backend)
 	defer e.st.Close()
+	if strings.HasPrefix(cs.Name, "deleted-bucket ") {
+		return c17Deleted(e, strings.TrimPrefix(cs.Name, "deleted-bucket ")), nil
+	}
 	if f := strings.SplitN(cs.Name, " /", 2); len(f) == 2 && (f[0] == "PUT" || f[0] == "POST" || f[0] == "DELETE" || f[0] == "GET") {
 		// a request that is not create-bucket (the no-create probes)
 		r := s3x.Do(e.st.Handler, &s3x.Req{Method: f[0], RawTarget: "/" + f[1], Body: []byte("x")})
@@ -339,6 +427,15 @@ func c17Run(t *testing.T, c *evid.Collector) {
 		}
 		s3x.Do(e.st.Handler, &s3x.Req{Method: "PUT", Path: "/objects-go-here/copied", Header: s3x.H("X-Amz-Copy-Source", "/objects-go-here/dir/object-300000")})
 		report(c, "listbuckets", e.checkList(), c17Case{k, "(after multipart and copy)"})
+	}
+	// buckets that were deleted again
+	for _, k := range kinds {
+		for _, spec := range c17DeletedSpecs {
+			cs := c17Case{k, "deleted-bucket " + spec}
+			ds := c17Deleted(envs[k], spec)
+			c.Case(evid.FP(string(k), "deleted-bucket", spec), true, func() interface{} { return cs }, "backend:"+string(k), "src:deleted-bucket")
+			report(c, "listbuckets", ds, cs)
+		}
 	}
 	for _, k := range kinds {
 		report(c, "listbuckets", envs[k].checkList(), c17Case{k, "(final)"})
